@@ -85,6 +85,7 @@ type connRec struct {
 type collector struct {
 	name     string // "A", "B", ...: what the events call this collector
 	stalls   map[int]*stallSpec
+	rcvbuf   int // > 0: the receive buffer of every accepted connection (a small one: a collector that does not read holds the sender up soon)
 	port     int
 	resv     int
 	mu       sync.Mutex
@@ -166,6 +167,9 @@ func (co *collector) up() error {
 				cs = &s
 			}
 			st := co.stalls[cr.idx]
+			if co.rcvbuf > 0 {
+				_ = cr.c.SetReadBuffer(co.rcvbuf)
+			}
 			co.mu.Unlock()
 			atomic.AddInt32(&co.accepted, 1)
 			go cr.run(cs, st, co.dialed)
